@@ -54,7 +54,7 @@ check("C09", "fault_enumeration",
       "deterministic simulation with enumerated fault injection (every fd-allocation failure position per program) + reference redirection-table model", "DESIGN.md section 4 C09")
 
 check("C08", "exploration",
-      "Generated programs place 41 kinds of state-mutating commands (including closing descriptor 0, array values, starting asynchronous jobs, assignments made by `${x:=v}` and `$((x=1))`, and setting `$?`) before and inside every kind of subshell (( ), $( ), both pipeline elements, asynchronous lists, nested to depth 3); a probe serialises the complete shell state (`$?`, variables+attributes, positional parameters, functions, aliases, options, traps, cwd, umask, limits, descriptor table by open-file-description identity, signal dispositions, mask) around each one. Oracles: the parent's snapshot is unchanged by whatever the child does - also while an asynchronous child is still running, under seeded schedules with preemption between any two kernel calls of the parent; the child's entry snapshot equals the parent's except exactly the documented differences (context stack: the parent's plus the subshell frames; a third of the tests run inside a loop body or an `if` condition); data written to shared files/pipes arrives (positive control). Crash-injection runs (children killed with SIGKILL from outside at seeded instants) keep the leak oracle and check every snapshot that was still taken; so do runs in which one seeded descriptor allocation fails with EMFILE and runs under a descriptor limit of 10 (no descriptor for the shell's own use can be allocated; job control switched on afterwards). Every program also runs once in an interactive shell (the shell's own signal handling must not be handed down to its subshells). A virtual fork is an in-memory clone sharing reference-counted parts, so leaks are schedule dependent - which only a controlled scheduler explores.",
+      "Generated programs place 41 kinds of state-mutating commands (including closing descriptor 0, array values, starting asynchronous jobs, assignments made by `${x:=v}` and `$((x=1))`, and setting `$?`) before and inside every kind of subshell (( ), $( ), both pipeline elements, asynchronous lists, nested to depth 3); a probe serialises the complete shell state (`$?`, variables+attributes, positional parameters, functions, aliases, options, traps, cwd, umask, limits, descriptor table by open-file-description identity, signal dispositions, mask) around each one. Oracles: the parent's snapshot is unchanged by whatever the child does - also while an asynchronous child is still running, under seeded schedules with preemption between any two kernel calls of the parent; the child's entry snapshot equals the parent's except exactly the documented differences (context stack: the parent's plus the subshell frames; a third of the tests run inside a loop body or an `if` condition); data written to shared files/pipes arrives (positive control). Crash-injection runs (children killed with SIGKILL from outside at seeded instants) keep the leak oracle and check every snapshot that was still taken; so do runs in which one seeded descriptor allocation fails with EMFILE and runs under a descriptor limit of 10 (no descriptor for the shell's own use can be allocated; job control switched on afterwards). Every program also runs once in an interactive shell (the shell's own signal handling must not be handed down to its subshells). A virtual fork is an in-memory clone sharing reference-counted parts, so leaks are schedule dependent - which only a controlled scheduler explores. A further kind of test lets a pipeline element start two asynchronous writers that share its standard output (a pipe with a slow reader, more data than it holds) and wait for them: its snapshots before and after must agree, including the mode (O_NONBLOCK) of every open file description, which the writers switch temporarily.",
       BASE_NOTE, "deterministic simulation: full-state snapshots around subshells under seeded schedules with preemption", "DESIGN.md section 4 C08")
 
 check("C15", "exploration",
@@ -68,7 +68,7 @@ check("C12", "exploration",
       "deterministic simulation: seeded job-event histories + whole-shell job control with simulator-injected stop/continue/kill; invariant checker", "DESIGN.md section 4 C12")
 
 check("C11", "exploration",
-      "Two engines. (a) Seeded operation histories (set trap action default/ignore/command with and without override, enable/disable each group of internal dispositions, enter a subshell with each option combination, mark/take caught signals) x initial dispositions x nine signal classes incl. KILL/STOP and EXIT drive the real TrapSet against the real Concurrent<VirtualSystem>; after every operation the disposition and mask read back from the simulated process, the listing and the returned error must equal a reference merge written from the documentation (effective = max(internal, trap action); refused iff ignored on entry and not overridden; KILL/STOP never). (b) Whole scripts with USR1/USR2 traps while the simulator delivers signals to the shell at seeded scheduler steps, with preemption between any two kernel calls: stdout, every printed $? and the final status must equal the signal-free run; trap runs == deliveries (spaced) or 1..=deliveries (burst), never nested; two fifths of the scripts leave the shell while still armed (`exit $(slow)`, errexit on a slow failing subshell), where the last command boundary is the one after the command that ends the shell; a quarter run as interactive shells (interruptible built-ins), a third block in `read` on a standard input written by a slow feeder; fixed scenarios cover two signals pending at one boundary with a diverting first action and `wait` inside a trap action.",
+      "Two engines. (a) Seeded operation histories (set trap action default/ignore/command with and without override, enable/disable each group of internal dispositions, enter a subshell with each option combination, mark/take caught signals) x initial dispositions x nine signal classes incl. KILL/STOP and EXIT drive the real TrapSet against the real Concurrent<VirtualSystem>; after every operation the disposition and mask read back from the simulated process, the listing and the returned error must equal a reference merge written from the documentation (effective = max(internal, trap action); refused iff ignored on entry and not overridden; KILL/STOP never). (b) Whole scripts with USR1/USR2 traps while the simulator delivers signals to the shell at seeded scheduler steps, with preemption between any two kernel calls: stdout, every printed $? and the final status must equal the signal-free run; trap runs == deliveries (spaced) or 1..=deliveries (burst), never nested; two fifths of the scripts leave the shell while still armed (`exit $(slow)`, errexit on a slow failing subshell), where the last command boundary is the one after the command that ends the shell; a quarter run as interactive shells (interruptible built-ins), a third block in `read` on a standard input written by a slow feeder; fixed scenarios cover two signals pending at one boundary with a diverting first action and `wait` inside a trap action; a quarter of the script lines run inside `eval` or `command eval` (and `command wait`), i.e. commands and their trap actions run inside a built-in - which in an interactive shell runs next to the helper that records caught signals.",
       BASE_NOTE, "deterministic simulation: operation histories vs reference merge model + signal injection at seeded scheduler steps vs pending-flag model", "DESIGN.md section 4 C11")
 
 check("C19", "exploration",
